@@ -37,6 +37,7 @@ type Machine struct {
 	Trace    bool
 	HarnessP map[string]bool // package paths that carry vf* intrinsics
 	depth    int
+	InInit   bool
 }
 
 type deferred struct {
@@ -67,6 +68,7 @@ func NewMachine(prog *ssa.Program, ex *Explorer) *Machine {
 		m.opaque[p] = true
 	}
 	registerIntrinsics(m)
+	registerBig(m)
 	return m
 }
 
@@ -443,6 +445,13 @@ func (m *Machine) callSSA(caller *frame, fn *ssa.Function, args []Value, env []V
 		pk = fn.Origin().Pkg
 	}
 	if pk != nil && m.isOpaquePkg(pk) {
+		if m.InInit {
+			// package initialisers run concretely; results of unmodelled library
+			// calls become zero values (a harness that later depends on one aborts
+			// on the nil dereference or is caught by native replay)
+			m.ex.StubsHit["init-skipped:"+name]++
+			return m.zeroResults(fn)
+		}
 		m.ex.Unsupported[name]++
 		m.path.abort("unsupported", "call into unmodelled package: "+name)
 	}
